@@ -27,6 +27,10 @@ def _compute(tier, seed):
         recs += r.records
     if tier == 'quick':
         recs = [x for x in recs if len(x['posterior']['ids']) == 1 or int(digest(x), 16) % 4 == seed % 4]
+        # three individuals (one extra row): positions in the parameter vector and per-individual regimens beyond two
+        r3 = tlc.run('Controller', 'Controller_three.cfg')
+        runs.append(r3.summary())
+        recs += [x for x in r3.records if len(x['posterior']['ids']) == 3 and int(digest(x), 16) % 3 == seed % 3]
     else:
         recs = [x for x in recs if len(x['data']) < 8 or int(digest(x), 16) % 40 == seed % 40]
     from . import replay_controller
